@@ -22,7 +22,46 @@ SLOTBD = SBD + "SlotBlockData"
 IMPL = "<" + BS + "BlockstoreImpl as " + BS + "Blockstore>::"
 
 
+def ob_last_slice_prune(run, oid):
+    """supports the reviewed invariant 'slices.len() == last+1 implies slices 0..=last are present'"""
+    prog = run.program("lib")
+    o = run.ob(oid, "learning the last slice drops every stored slice and shred beyond it, and later slices beyond it are refused",
+               "a stale slice beyond the last marker makes slices.len() == last+1 hold without slice 0: try_reconstruct_block's expect() panics under the blockstore lock (contradictory last-slice flags from a Byzantine leader)", floor=3)
+    b = prog.body(BD + "::mark_last_slice")
+    if b is None:
+        o.missing("BlockData::mark_last_slice")
+        return
+    for fld in ("slices", "shreds"):
+        rt = [c for c in b.calls() if c.name.endswith("::retain") and K.is_field(b.operand_term(c.args[0]), fld, "BlockData")]
+        ok = len(rt) == 1 and b.always_followed_by(0, [rt[0].bb])
+        if ok:
+            cl = b.operand_term(rt[0].args[1])
+            caps = dict(cl[2]) if cl[0] == "closure" else {}
+            ok = any(K.is_arg(b, t, 2) or K.mentions_arg(b, t, 2) for t in caps.values())
+            cb = prog.bodies.get(cl[1]) if cl[0] == "closure" else None
+            ok = ok and cb is not None and any(c.name.rsplit("::", 1)[-1] in ("le", "lt", "ge", "gt") for c in cb.calls())
+        o.check(bool(ok), "mark_last_slice|%s.retain" % fld, "every path through mark_last_slice retains only %s with index <= the last slice" % fld, b.span)
+    w = K.writes_of_field(b, "BlockData", "last_slice")
+    o.check(len(w) == 1, "mark_last_slice|sets-last", "mark_last_slice records the last slice index", b.span)
+    ws = K.all_field_writers(prog, BD).get("last_slice", {})
+    o.check(set(x.rsplit("::", 1)[-1] for x in ws) <= {"mark_last_slice", "new"}, "last_slice|writers", "last_slice is written only by mark_last_slice", "", {"writers": [fshort(x) for x in ws]})
+    ab = prog.body(BD + "::add_shred")
+    if ab is not None:
+        # a shred for a slice beyond a known last slice is refused before it is stored
+        stores = []
+        for (bb, i, dst, rv, sp) in ab.assignments():
+            t = ab.rvalue_term(rv)
+            if t[0] == "agg" and t[1] == "core::option::Option" and t[2] == "Some" and K.is_arg(ab, dict(t[3])["0"], 2) and dst["p"]:
+                stores.append((bb, sp))
+        for (sbb, ssp) in stores:
+            sws = [s_ for (s_, dterm, dty) in ab.switches() if isinstance(dterm, tuple) and dterm[0] == "discr" and K.is_field(dterm[1], "last_slice", "BlockData") and ab.dominates(s_, sbb)]
+            o.check(bool(sws), "add_shred|store|last-slice-consulted", "the known last slice is consulted before a shred is stored", ssp)
+
+
 def check(run):
+    ob_last_slice_prune(run, "O13.1b")
+    from . import C12
+    C12.ob_equivocation(run, "O13.1c")
     prog = run.program("lib")
 
     # ------------------------------------------------------------------ O13.1
@@ -85,6 +124,20 @@ def check(run):
     b = prog.body(BD + "::try_reconstruct_block")
     if b is not None:
         comp = K.writes_of_field(b, "BlockData", "completed")
+        # the parent variable: the local whose components feed Block.parent / Block.parent_hash
+        parent_local = None
+        for (bb0, rv0, sp0, dst0) in b.aggregates(A + "Block"):
+            fm0 = dict(zip(rv0["fields"], rv0["ops"]))
+            for key0 in ("parent", "parent_hash"):
+                t0 = b.operand_term(fm0[key0]) if key0 in fm0 else None
+                for x in (mir.walk(t0) if t0 else []):
+                    if isinstance(x, tuple) and x and x[0] == "local" and len(b.defs().get(x[1], [])) >= 2:
+                        parent_local = x[1]
+
+        def is_parent(t):
+            return parent_local is not None and K.mentions(t, lambda x: x[0] == "local" and x[1] == parent_local)
+        if parent_local is None:
+            o.missing("the parent variable feeding Block.parent in try_reconstruct_block")
         if not comp:
             o.fail("try_reconstruct_block|completed|missing", "no write of `completed`", b.span)
         for (bb, sp, rv) in comp:
@@ -94,25 +147,30 @@ def check(run):
             o.check(bool(g), "try_reconstruct_block|completed|all-slices", "guarded by slices.len() == last_slice + 1", sp, det)
             g = [a for a in atoms if a[0] == "is_some" and a[2] is True and K.is_field(a[1][0], "last_slice", "BlockData")]
             o.check(bool(g), "try_reconstruct_block|completed|last-known", "guarded by last_slice being known", sp, det)
-            g = [a for a in atoms if a[0] == "lt" and a[2] is True and any(K.mentions_field(x, "slot", "BlockData") for x in a[1][1:]) and
-                 (K.mentions_field(a[1][0], "parent") or K.mentions_name(a[1][0], "parent"))]
+            g = [a for a in atoms if a[0] == "lt" and a[2] is True and any(K.mentions_field(x, "slot", "BlockData") for x in a[1][1:]) and is_parent(a[1][0])]
             o.check(bool(g), "try_reconstruct_block|completed|parent-slot-earlier", "guarded by parent.slot < self.slot (first slice's parent)", sp, det)
-        # parent switch
+        # parent switch: the other definition(s) of the parent variable
         sw = []
-        for (bb, i, dst, rv, spx) in b.assignments():
-            if not dst["p"] and b.local_name(dst["l"]) == "parent" and b.rvalue_term(rv)[0] != "call":
-                t = b.rvalue_term(rv)
-                if K.mentions_name(t, "new_parent") or (t[0] in ("local", "variant", "field") and not K.mentions_call(t, "expect")):
-                    sw.append((bb, spx, t))
-        sw = [x for x in sw if x[0] != 0 and any(a[0] == "is_some" for a in G.guard_atoms(b, x[0], prog))]
+        for d in b.defs().get(parent_local, []) if parent_local is not None else []:
+            if d[0] == "stmt":
+                t = b.rvalue_term(d[3]["rv"])
+                if not K.mentions_call(t, "expect") and not K.mentions_call(t, "unwrap"):
+                    sw.append((d[1], d[3].get("sp", ""), t))
         if not sw:
             o.fail("try_reconstruct_block|parent-switch|missing", "no parent switch (optimistic handover) found", b.span)
         for (bb, spx, t) in sw[:1]:
             atoms = G.guard_atoms(b, bb, prog)
             det = {"guards": G.atoms_show(atoms)[-8:]}
-            o.check(any(a[0] == "eq" and a[2] is False and any(K.mentions_name(x, "parent") for x in a[1]) for a in atoms), "try_reconstruct_block|parent-switch|not-same", "switch only to a different parent", spx, det)
-            o.check(any(a[0] == "bool" and a[2] is False and a[1][0][0] == "local" and a[1][0][2] == "parent_switched" for a in atoms) or
-                    any(a[0] == "bool" and a[2] is False and K.mentions_name(a[1][0], "parent_switched") for a in atoms), "try_reconstruct_block|parent-switch|once", "switch at most once", spx, det)
+            o.check(any(a[0] == "eq" and a[2] is False and any(is_parent(x) for x in a[1]) for a in atoms), "try_reconstruct_block|parent-switch|not-same", "switch only to a different parent", spx, det)
+            # the 'switched once' flag: a bool local, false on the path to the switch, set to true on it
+            flags = [a for a in atoms if a[0] == "bool" and a[2] is False and a[1][0][0] == "local" and b.local_ty(a[1][0][1]) == "bool"]
+            set_true = False
+            for a in flags:
+                l = a[1][0][1]
+                for d in b.defs().get(l, []):
+                    if d[0] == "stmt" and b.rvalue_term(d[3]["rv"]) == ("const", "bool", 1) and (b.dominates(bb, d[1]) or d[1] == bb or b.dominates(d[1], bb) and b.can_reach(bb, d[1])):
+                        set_true = True
+            o.check(bool(flags) and set_true, "try_reconstruct_block|parent-switch|once", "switch at most once (guarded by a flag that the switch sets)", spx, det)
             o.check(any(a[0] == "lt" and a[2] is True and any(K.mentions_field(x, "slot", "BlockData") for x in a[1][1:]) for a in atoms), "try_reconstruct_block|parent-switch|slot-earlier", "the new parent is in an earlier slot", spx, det)
             o.check(any(a[0] == "bool" and a[2] is False and K.mentions_call(a[1][0], "is_first") for a in atoms), "try_reconstruct_block|parent-switch|not-first-slice", "only in a slice after the first", spx, det)
         # decode gate: transactions appended only from Ok of deserialize_exact
@@ -166,7 +224,8 @@ def check(run):
         for (bb, rv, sp, dst) in b.aggregates(A + "Block"):
             fm = dict(zip(rv["fields"], [b.operand_term(x) for x in rv["ops"]]))
             pv = b.provenance(fm["hash"])
-            ok = any(x.endswith("MerkleTree::get_root") for x in pv["calls"]) and K.mentions_name(fm["parent"], "parent") and K.mentions_name(fm["parent_hash"], "parent")
+            same_local = lambda t: [x[1] for x in mir.walk(t) if isinstance(x, tuple) and x and x[0] == "local"]
+            ok = any(x.endswith("MerkleTree::get_root") for x in pv["calls"]) and bool(same_local(fm["parent"])) and same_local(fm["parent"]) == same_local(fm["parent_hash"])
             o.check(ok, "try_reconstruct_block|Block|fields", "Block.hash is that root; parent/parent_hash are the (final) parent", sp)
     bi = [x for d, x in prog.bodies.items() if "BlockInfo" in d and d.endswith("::from") and "From" in d]
     for x in bi:
